@@ -36,6 +36,7 @@ class DiffXReader(object):
 
     _HEADER_OPTION_KEY_RE = re.compile(br'[A-Za-z][A-Za-z0-9_-]*')
     _HEADER_OPTION_VALUE_RE = re.compile(br'[A-Za-z0-9/_.-]+')
+    _HEADER_OPTION_INT_VALUE_RE = re.compile(r'-?[0-9]+')
     _HEADER_RE = re.compile(
         br'^#(?P<section_id>(?P<level>\.{0,3})'
         br'(?P<section_type>diffx|preamble|meta|change|file|diff)):'
@@ -392,10 +393,14 @@ class DiffXReader(object):
                 option_value = option_value.decode('ascii')
 
                 # Convert the value to an integer, if it's a number.
-                try:
-                    option_value = int(option_value)
-                except ValueError:
-                    pass
+                #
+                # int() accepts more than plain decimal numbers (such as
+                # "1_000"), so check the format first.
+                if self._HEADER_OPTION_INT_VALUE_RE.fullmatch(option_value):
+                    try:
+                        option_value = int(option_value)
+                    except ValueError:
+                        pass
 
                 options[option_key] = option_value
 
